@@ -274,3 +274,25 @@ B("C14", "unescape label typo", JSF, '"function.unescape",', '"function.escape",
 N("C14", "regex equal-language rewrite", XMLF, "x[a-f0-9]{2}", "x[0-9a-f][0-9a-f]")
 N("C14", "chr handler catches the superclass only", CHRF, "except (ValueError, UnicodeEncodeError):", "except ValueError:")
 N("C14", "explicit span", CHRF, 'out.append(Node("string", character, "function.chr", *match.span()))', 'out.append(Node("string", character, "function.chr", match.start(), match.end()))')
+
+# ------------------------------------------------------------------ C15
+REPL = D + "replace.py"
+REV = D + "reverse.py"
+VBA = D + "vba.py"
+CONC = D + "concat.py"
+HIT = "src/multidecoder/hit.py"
+B("C15", "[1:-1] -> [1:] on the subject", REPL, '            match.group(1)[1:-1].replace(match.group(2)[1:-1], match.group(3)[1:-1]),\n            "replace",\n            *match.span(),\n        )\n        for match in re.finditer(REPLACE_RE, data)', '            match.group(1)[1:].replace(match.group(2)[1:-1], match.group(3)[1:-1]),\n            "replace",\n            *match.span(),\n        )\n        for match in re.finditer(REPLACE_RE, data)', "R1-evaluation")
+B("C15", "[-2:0:-1] -> [::-1]", REV, 'lambda s: (s[-2:0:-1], "reverse")', 'lambda s: (s[::-1], "reverse")', "R1-evaluation")
+B("C15", "vba reverse keeps the first character", VBA, 'lambda s: (s[-2:0:-1], "vba.reverse")', 'lambda s: (s[-2::-1], "vba.reverse")', "R1-evaluation")
+B("C15", "replace operands swapped", REPL, '            match.group(1)[1:-1].replace(match.group(2)[1:-1], match.group(3)[1:-1]),\n            "vba.replace",', '            match.group(1)[1:-1].replace(match.group(3)[1:-1], match.group(2)[1:-1]),\n            "vba.replace",', "R1-evaluation")
+B("C15", "deob_group=0 for reverse", REV, 'lambda s: (s[-2:0:-1], "reverse"), 1)', 'lambda s: (s[-2:0:-1], "reverse"), 0)', "R1-evaluation")
+B("C15", "find_and_deobfuscate spans the deob group", HIT, "*match.span(context_group))", "*match.span(deob_group))", "R4-span-labels")
+B("C15", "concat spacer differs from the chain's", CONC, 're.sub(rb"[\'\\"]" + CONCAT_SPACER_RE + rb"[\'\\"]", b"", match.group())[1:-1],', 're.sub(rb"[\'\\"]\\s*(?:&|\\+)\\s*[\'\\"]", b"", match.group())[1:-1],', "R1-evaluation")
+B("C15", "concat spacer loses &amp;", CONC, 'CONCAT_SPACER_RE = rb"[\\s_]*(?:&|\\+|&amp;)[\\s_]*"', 'CONCAT_SPACER_RE = rb"[\\s_]*(?:&|\\+)[\\s_]*"', "R3-concat")
+B("C15", "js replace keeps the pattern quoted-style slice", REPL, "match.group(1)[1:-1].replace(match.group(2), match.group(3)[1:-1]),", "match.group(1)[1:-1].replace(match.group(2)[1:-1], match.group(3)[1:-1]),", "R1-evaluation")
+B("C15", "powershell replace type not a string type", REPL, '"powershell.string",', '"powershell.expression",', "R4-span-labels")
+B("C15", "concat possessive repeat", CONC, 'CONCAT_RE = rb"(?:" + STRING_RE + CONCAT_SPACER_RE + rb")+" + STRING_RE', 'CONCAT_RE = rb"(?:" + STRING_RE + CONCAT_SPACER_RE + rb")++" + STRING_RE', "R3-concat")
+B("C15", "replace pattern loses whitespace tolerance", REPL, 'REPLACE_RE = rb"(?i)(" + STRING_RE + rb")\\.replace\\(\\s*(" + STRING_RE + rb")\\s*,\\s*(" + STRING_RE + rb")\\s*\\)"', 'REPLACE_RE = rb"(?i)(" + STRING_RE + rb")\\.replace\\((" + STRING_RE + rb"),(" + STRING_RE + rb")\\)"', "R2-group-roles")
+B("C15", "span of replace from group 1", REPL, '            "vba.replace",\n            *match.span(),', '            "vba.replace",\n            *match.span(1),', "R4-span-labels")
+N("C15", "slices via a named helper", REPL, '            match.group(1)[1:-1].replace(match.group(2)[1:-1], match.group(3)[1:-1]),\n            "vba.replace",', '            unquote(match.group(1)).replace(unquote(match.group(2)), unquote(match.group(3))),\n            "vba.replace",', also=[dict(file=REPL, old="@decoder\ndef find_replace(", new="def unquote(s: bytes) -> bytes:\n    return s[1:-1]\n\n\n@decoder\ndef find_replace(")])
+N("C15", "explicit span in concat", CONC, "            match.start(),\n            match.end(),\n", "            *match.span(),\n")
